@@ -74,7 +74,7 @@ def gen_op(rng, state):
         return weighted(rng, VIDS, VID_W if wild else [6, 5, 4, 3, 0, 0, 0])
 
     enabled = [k for k, _, en in links if en]
-    w = [28 * (3 if not defined else 1), 28 if defined else 5, 14 if links else 3, 12 if enabled else 4, 8 if enabled else 2, 6, 4]
+    w = [28 * (3 if not defined else 1), 28 if defined else 5, 14 if links else 3, 12 if enabled else 4, 16 if enabled else 2, 6, 4]
     if defined and not links:
         w[1] *= 3
     if links and not enabled:
@@ -114,8 +114,10 @@ def gen_op(rng, state):
     if k < 82:
         return "Q" + ceid(True)
     if k < 90:
-        c = ceid(True)
-        return "T" + (c if gemlib_scalar(c) else "n50")
+        # 1-4 CEIDs in one call: enabled, linked-but-disabled, unlinked and unknown ones in every position, repeats
+        disabled = [k for k, _, en in links if not en]
+        pool = enabled * 3 + disabled * 2 + ["n1", "n50", "t" + gemlib.hexs("ce-t"), "n99", "n2"]
+        return "T" + ",".join(rng.choice(pool) for _ in range(rng.choice([1, 2, 2, 3, 3, 4])))
     if k < 96:
         return ("Vn30=n" + str(rng.range(0, 9))) if rng.chance(1, 2) else ("Vt" + gemlib.hexs("sv-t") + "=n" + str(rng.range(0, 9)))
     return "Wn31=t" + gemlib.hexs(rng.choice(["", "a", "xyz"]))
@@ -198,18 +200,15 @@ class Run:
                 return "x"
             return self.show_report(body) if f == 16 else f"bad-reply-S{s}F{f}"
         if kind == "T":
-            i = parse_id(rest)
+            ids = [parse_id(x) for x in rest.split(",")]
             eq.c.primaries.clear()
-            h.trigger_collection_events([i[1][0] if i[0] == "n" else i[1]])
-            errs = THREADS.join_all()
+            h.trigger_collection_events([i[1][0] if i[0] == "n" else i[1] for i in ids])
+            errs = THREADS.join_all()          # the sender is a thread: bounded join
             sent = [p for p in eq.c.primaries if p[:2] == (6, 11)]
-            if errs:
-                return "!"
-            if not sent:
+            out = "|".join(self.show_report(gemlib.decode_body(p[2])) for p in sent)
+            if not sent and not errs:
                 return "-"
-            if len(sent) > 1:
-                return "bad-multiple-S6F11"
-            return self.show_report(gemlib.decode_body(sent[0][2]))
+            return out + ("!" if errs else "")
         if kind in "VW":
             k, v = rest.split("=")
             self.values[k] = v
@@ -312,20 +311,30 @@ def oracle(run, op, out, before, after):
             strip = lambda st: (st[0], [(k, rs, en if k in was else None) for k, rs, en in st[1]])  # noqa: E731
             if strip(want) != strip(a):
                 return ("accepted-effect", f"{op} accepted but the configuration is not the E5 effect")
-    if op[0] in "QT" and scalar(op[1:]):
+    if op[0] == "Q" and scalar(op[1:]):
         c = op[1:]
         entry = next(((rs, en) for k, rs, en in a[1] if k == c), None)
         full = expected_report(run, a, c, force=True)   # the linked reports with current values
         if entry is not None and full is None:
             return ("event-report", f"{op}: CEID is linked to an undefined report, no well-formed report exists (got {out})")
-        if op[0] == "Q":
-            # linked and enabled: exactly the linked reports; not linked: an empty report; linked but disabled: the text does
-            # not pin whether the host still gets the linked reports, both are accepted
-            ok = [full] if entry is not None and entry[1] else ["r" + c + "[]"] if entry is None else ["r" + c + "[]", full]
-        else:
-            ok = [full] if entry is not None and entry[1] else ["-"]
+        # linked and enabled: exactly the linked reports; not linked: an empty report; linked but disabled: the text does
+        # not pin whether the host still gets the linked reports, both are accepted
+        ok = [full] if entry is not None and entry[1] else ["r" + c + "[]"] if entry is None else ["r" + c + "[]", full]
         if out not in ok:
             return ("event-report", f"{op}: got {out}, the linked reports with current values are {full}")
+    if op[0] == "T":
+        # one S6F11 per linked and enabled CEID of the call, in list order, each with its linked reports and current values
+        want = []
+        for c in op[1:].split(","):
+            entry = next(((rs, en) for k, rs, en in a[1] if k == c), None)
+            if entry is not None and entry[1]:
+                full = expected_report(run, a, c, force=True)
+                if full is None:
+                    return ("event-report", f"{op}: CEID {c} is linked to an undefined report, no well-formed report exists (got {out})")
+                want.append(full)
+        want = "|".join(want) if want else "-"
+        if out != want:
+            return ("trigger-reports", f"{op}: sent {out}, the enabled linked events of the call are {want}")
     return None
 
 
@@ -400,6 +409,9 @@ def main():
             ["Rn1=n30,n1003;n2=n31", "Ln50=n2,n1,n2", "E1:", "Vn30=n7", "Qn50", "Tn50", "Rn2=", "Qn50", "R", "Qn50"],
             ["Rn1=n30", "Rn1=n31", "Rn1=n99", "Ln99=n1", "Ln1=n2", "Ln1=n1", "Ln1=n1", "E1:n1,n99", "E0:n1.2,n1"],
             ["Rn1=n30;n1=n31", "Ln1=n1;n1=n1", "Ln1=", "Ln1=n1;n50=n1", "Rn1=;n2=n30", "E1:", "Qn1", "Qn50"],
+            # one trigger call over enabled / disabled / unlinked / unknown CEIDs in every position, with repeats
+            ["Rn1=n30;n2=n31", "Ln1=n1;n50=n2,n1;t" + gemlib.hexs("ce-t") + "=n2", "E1:n1,n50", "Tn1,t" + gemlib.hexs("ce-t") + ",n50",
+             "Tt" + gemlib.hexs("ce-t") + ",n1", "Tn99,n50,n2,n1", "Tn50,n50", "E0:n1", "Tn1,n50,n1", "Tn1", "Tn2,n99"],
         ]
         for ops in corpus:
             cases.append((ops, 0, False, None))
